@@ -32,6 +32,10 @@ def run(res, tier, seed):
     for r in range(reps):
         tf = os.path.join(vlib.BUILD, 'traces', 'c07-%d-%d.ndjson' % (r, os.getpid())); tfs.append(tf)
         cmds.append([exe, tf, str(n), str(seed * 8009 + r * 577), '4'])
+    # gated plans on 8 logical threads, 10 tokens, 12 items: the parallel stage releases items in orders that make the ordered stage's token ring grow by jumps
+    for r in range(3 if not thorough else 12):
+        tf = os.path.join(vlib.BUILD, 'traces', 'c07-g%d-%d.ndjson' % (r, os.getpid())); tfs.append(tf)
+        cmds.append([exe, tf, '3' if not thorough else '12', str(seed * 13 + r * 3), '0', '8', '10', '12'])
     ps = vlib.run_parallel(cmds, timeout=2500)
     nexec = 0; steps = 0; execs = []
     for pp, tf in zip(ps, tfs):
